@@ -3,7 +3,7 @@ import numpy as np
 
 from .. import graphs as G
 from .. import oracles as O
-from .common import call, close, dtype_variants_agree, layout_variants_agree
+from .common import call, close, dtype_variants_agree, layout_variants_agree, padding_invariant
 
 PROP = 'C09'
 ANCHORS = ['clustering_coef_bu', 'clustering_coef_bd', 'clustering_coef_wu', 'clustering_coef_wd',
@@ -157,5 +157,11 @@ def run(case, bct, REC):
         if has_tri and bool((Cd == 0).any()):
             REC.note_nontrivial(PROP, W)
             REC.tag(PROP, 'class:triangle_and_triangle_free_node')
+    if 4 <= n <= 9 and case['ws'] % 9 == 0:
+        Wr = G.weigh(A, 'real', case['ws'], symmetric=not directed)
+        for fn, X in (('clustering_coef_bd', A), ('clustering_coef_wd', Wr)) + ((('clustering_coef_bu', A), ('clustering_coef_wu', Wr)) if not directed else ()):
+            padding_invariant(REC, PROP, fn, getattr(bct, fn), X, 300, case['ws'], ('node',), 0.0)
+        for fn, X in (('transitivity_bd', A), ('transitivity_wd', Wr)) + ((('transitivity_bu', A), ('transitivity_wu', Wr)) if not directed else ()):
+            padding_invariant(REC, PROP, fn, getattr(bct, fn), X, 300, case['ws'], ('scalar',), 0.0)
     if n <= 5:
         REC.sample(PROP, {'A': A, 'schemes': case['schemes']}, cap=4)
